@@ -723,8 +723,10 @@ func checkC08DeepCopies(c *Check, L *Loaded) {
 			nullTable := false
 			for _, a := range p {
 				if a.cond != nil {
-					if k, v := condCallFact(a.cond, a.truth, "is_primitive_vtable"); k {
-						prim, primKnown = v, true
+					for _, helper := range primitiveTests(P) {
+						if k, v := condCallFact(a.cond, a.truth, helper); k {
+							prim, primKnown = v, true
+						}
 					}
 					// 'vtable_ptr == NULL' taken true / '!= NULL' taken false: nothing is stored on this path
 					if cn := cstrip(a.cond); cn != nil && cn.Kind == "BinaryOperator" && len(cn.Inner) == 2 && strings.Contains(cn.Inner[0].text(), "vtable_ptr") {
@@ -1027,4 +1029,36 @@ func checkC08PartReference(c *Check, L *Loaded, r4 *Rule) {
 		}
 		r4.Decide(!aliased, key, token.NoPos, "the value parameter receives its own copy", "the callee receives the caller's list as the borrowed value of a parameter it treats as constant and a Referenz to one of its elements: a write through the Referenz shows through (or releases what is read through) the value parameter")
 	}
+}
+
+// primitiveTests: the names of the runtime's helpers that test whether a Variable's content is primitive - one-parameter
+// functions whose body is a single return of a condition that compares the vtable's free_func with NULL (a type without a
+// free function owns no blocks). Resolved by that role, not by name.
+func primitiveTests(P *CProgram) []string {
+	var out []string
+	for name, f := range P.Funcs {
+		if f.Body == nil || len(f.Body.Inner) != 1 {
+			continue
+		}
+		ret := f.Body.Inner[0]
+		if ret.Kind != "ReturnStmt" {
+			continue
+		}
+		found := false
+		ret.walk(func(m *CNode) bool {
+			if m.Kind == "BinaryOperator" && m.Opcode == "==" && len(m.Inner) == 2 {
+				if mem := cstrip(m.Inner[0]); mem != nil && mem.Kind == "MemberExpr" && mem.Name == "free_func" {
+					if k, ok := cIntValue(m.Inner[1]); ok && k == 0 {
+						found = true
+					}
+				}
+			}
+			return true
+		})
+		if found {
+			out = append(out, name)
+		}
+	}
+	sort.Strings(out)
+	return out
 }
